@@ -354,6 +354,8 @@ var scanDefs = map[string]scanDef{
 		func(s, r LRec) bool { return r.A == s.A }},
 	// provider earnings are scanned by the keeper, which post-filters: checked through the keeper
 	"provider_earnings_keeper": {"earned", nil, func(s, r LRec) bool { return r.A == s.A }},
+	// the by-owner listing decodes (service, provider) from the scanned index keys: through the keeper as well
+	"owner_bindings_keeper": {"ownbind", nil, func(s, r LRec) bool { return r.A == s.A && r.Name == s.Name }},
 }
 
 func genScanInput(t *rapid.T) interface{} {
@@ -393,6 +395,36 @@ func checkScan(x interface{}) (*Violation, []string, bool) {
 			if bytes.HasPrefix(r.Key(), p) {
 				got[r.canon()] = true
 			}
+		}
+	} else if in.Scan == "owner_bindings_keeper" {
+		w := NewWorld(defaultConfig())
+		// a binding exists once per (service, provider) and has one owner: drop population records that contradict that
+		seenSP := map[string]bool{}
+		var uniq []LRec
+		for _, r := range pop {
+			if k := r.Name + "|" + r.B; !seenSP[k] {
+				seenSP[k] = true
+				uniq = append(uniq, r)
+			}
+		}
+		pop = uniq
+		want = map[string]bool{}
+		for _, r := range pop {
+			if def.match(in.Subject, r) {
+				want[r.canon()] = true
+			}
+		}
+		for _, r := range pop {
+			b := types.ServiceBinding{ServiceName: r.Name, Provider: addr(r.B), Owner: addr(r.A), Pricing: `{"price":"1stake"}`, QoS: 1, Options: "{}"}
+			w.k.SetServiceBinding(w.ctx, b)
+			w.k.SetOwnerServiceBinding(w.ctx, b)
+		}
+		var listed []*types.ServiceBinding
+		if pan := guard(func() { listed = w.k.GetOwnerServiceBindings(w.ctx, addr(in.Subject.A), in.Subject.Name) }); pan != "" {
+			return &Violation{Prop: "C18", Sig: "c18:scan:" + in.Scan, Msg: fmt.Sprintf("listing the bindings of owner %s and service %q panicked: %s", in.Subject.A, in.Subject.Name, pan)}, nil, false
+		}
+		for _, b := range listed {
+			got[LRec{Kind: "ownbind", A: hx(b.Owner), Name: b.ServiceName, B: hx(b.Provider)}.canon()] = true
 		}
 	} else {
 		// keeper-level: provider earnings
